@@ -701,6 +701,7 @@ def grammar(tier, seed):
     return out
 
 
+ODD_NAMES = ["theta_{1,2}", "w[0,1]", "a b", "x:3", "beta_10", "x'", "q(0)", "a,b", "t 1", "x0:2", "_", "lambda", "p[1][2]", "x(:2)", "alpha:beta", "K", "theta_1 theta_2"]
 UNSUPPORTED = ["log(x)", "Abs(x)", "pi*x", "atan(x)", "x + log(y)", "cos(log(x))", "sec(x)", "f(x)", "sinh(x)", "re(x)", "x**pi", "E*x + asin(y)", "Max(x, y)", "conjugate(x)*y", "sign(x)"]
 
 
@@ -710,6 +711,16 @@ def instances(tier, seed):
     chunk = 25
     for i in range(0, len(texts), chunk):
         items.append(("rt", {"exprs": texts[i : i + chunk], "label": f"expressions {i}..{i + len(texts[i:i + chunk]) - 1}"}))
+    # symbols whose NAMES contain characters that some symbol factories interpret (commas, blanks, colons, brackets, ranges)
+    y = _LOC["y"]
+    odd = []
+    for nm in ODD_NAMES:
+        sy = sympy.Symbol(nm)
+        odd += [sy, 2 * sy, sy + 1, sy * y, sympy.cos(sy), sy**2, sy / y, y - sy, sympy.exp(sympy.I * sy), sympy.sqrt(sy) * 3, sy ** sympy.Rational(-1, 2), (sy + y) ** 3]
+    odd += [sympy.Symbol(a) - sympy.Symbol(b) for a, b in zip(ODD_NAMES, ODD_NAMES[1:])]
+    odd_texts = [str_for(e) for e in odd]
+    for i in range(0, len(odd_texts), chunk):
+        items.append(("rt", {"exprs": odd_texts[i : i + chunk], "label": f"unusual symbol names {i}..{i + len(odd_texts[i:i + chunk]) - 1}"}))
     for t in UNSUPPORTED:
         items.append(("refuse", {"expr": t, "label": f"unsupported {t}"}))
     lim = 40 if tier == "quick" else 130
